@@ -134,4 +134,9 @@ def hessian(poly: PolyLike) -> ndpoly:
                      [0, 0, 2*q0]]])
 
     """
-    return gradient(gradient(poly))
+    poly = numpoly.aspolynomial(poly)
+    grad = gradient(poly)
+    # the gradient may have lost unused names (option `retain_names`), but the
+    # second axis has to range over the same indeterminants as the first
+    grad, _ = numpoly.align_indeterminants(grad, poly.indeterminants)
+    return gradient(grad)
